@@ -300,7 +300,7 @@ func TestReplay(t *testing.T) {
 			t.Fatal("harness renders an empty valid STH")
 		}
 	}
-	workers := 4 * runtime.NumCPU() // calls that wait for the client's retry jitter sleep, they do not compute
+	workers := 16 * runtime.NumCPU() // calls that wait for the client's retry pause sleep, they do not compute
 	var wg sync.WaitGroup
 	ch := make(chan int)
 	var mu sync.Mutex
